@@ -1,3 +1,4 @@
+import IpcModel.InprocReg
 import IpcModel.Lemmas.OneShotProof
 /-!
 # C08 — one-shot server bootstrap connects two processes and leaves nothing behind
@@ -57,5 +58,18 @@ example : (run [.new 0, .accept 0, .connect 0, .accept 0, .csend 0 7, .csend 0 8
     = [.server 0 0, .blocks, .conn 0, .blocks, .ok, .ok, .ok, .accepted 0 7, .msg 8, .disc] := by decide
 example : fsCount (run [.new 0, .connect 0, .csend 0 7, .accept 0]).1 = 0 ∧ listenFds (run [.new 0, .connect 0, .csend 0 7, .accept 0]).1 = 0 := by decide
 example : fsCount (run [.new 3, .new 0, .dropServer 0]).1 = 0 := by decide
+
+/-- **C08_inproc_registry** — the in-process transport's rendezvous (registry operations regenerated from `src/platform/inprocess/mod.rs`:
+`new` registers, `accept` and dropping the server unregister, `connect` looks up without unwrapping): after any sequence of
+new / connect / accept / drop, a connect reaches server `n` exactly when that server is still waiting and is an *error*
+otherwise (a name never handed out, a server that has accepted, a server dropped unused); no operation ever panics; and
+once no server is waiting the registry is empty — nothing created for a rendezvous remains. -/
+theorem C08_inproc_registry (ops : List InprocReg.Op) (n : Nat) :
+    InprocReg.codeVariant = InprocReg.fixed ∧
+    (InprocReg.step InprocReg.fixed (InprocReg.run InprocReg.fixed ops).1 (.connect n)).2
+      = (if (InprocReg.run InprocReg.fixed ops).1.phase[n]? = some .live then .connected n else .err) ∧
+    InprocReg.Res.panic ∉ (InprocReg.run InprocReg.fixed ops).2 ∧
+    ((∀ k : Nat, (InprocReg.run InprocReg.fixed ops).1.phase[k]? ≠ some InprocReg.Phase.live) → (InprocReg.run InprocReg.fixed ops).1.reg = []) :=
+  ⟨InprocReg.code_variant.1, (InprocReg.connect_spec ops n).1, InprocReg.no_panic ops, fun h => (InprocReg.clean ops h).1⟩
 
 end C08
